@@ -53,9 +53,23 @@ func Main(id, level, rule string, assumes []string, defs []Def, quickBudget, tho
 		pre(r)
 	}
 	c := New(r)
-	budget := quickBudget
+	budget := quickBudget // per scenario
 	if r.Thorough() {
-		budget = thoroughBudget
+		// thoroughBudget is the budget of the WHOLE check: it is shared equally by the scenarios (at least
+		// one minute each); a scenario that hits its share reports truncated (exhaustive=false), never a violation
+		n := 0
+		for i := range defs {
+			if *flagOnly == "" || strings.Contains(defs[i].Name, *flagOnly) {
+				n++
+			}
+		}
+		if n == 0 {
+			n = 1
+		}
+		budget = thoroughBudget / time.Duration(n)
+		if budget < time.Minute {
+			budget = time.Minute
+		}
 	}
 	if *flagBudget > 0 {
 		budget = *flagBudget
